@@ -562,12 +562,172 @@ func genNormURL(r *Rng) []byte {
 	}
 }
 
+// ---- site-specific API answers (reddit / truthsocial / ina) ------------------------------------
+
+var siteDict = []string{"\"children\":[]", "\"children\":null", "\"children\":[null]", "\"children\":[{}]", "\"children\":{}", "\"dist\":1", "\"dist\":0", "\"dist\":-1", "\"dist\":null", "\"data\":null", "\"data\":[]",
+	"\"permalink\":null", "\"permalink\":1", "\"media_attachments\":null", "\"media_attachments\":[null]", "\"media_attachments\":{}", "\"external_video_id\":1", "\"created_at\":\"x\"", "\"created_at\":null", "\"id\":null", "\"id\":[]",
+	"\"dateOfBroadcast\":\"2024-13-45\"", "\"resourceUrl\":null", "\"embedUrl\":{}", "{", "}", "[", "]", ":", ",", "null", "\"\""}
+
+// siteField: the value of one field of an API answer: as the API sends it, or missing (nil, false),
+// null, empty, or of the wrong type.
+func siteField(r *Rng, good interface{}) (interface{}, bool) {
+	switch r.Intn(12) {
+	case 0:
+		return nil, false // absent
+	case 1:
+		return nil, true // null
+	case 2:
+		return "", true
+	case 3:
+		return []interface{}{}, true
+	case 4:
+		return map[string]interface{}{}, true
+	case 5:
+		return float64(r.Intn(5)) - 1, true
+	case 6:
+		return []interface{}{nil}, true
+	case 7:
+		return genURLish(r), true
+	default:
+		return good, true
+	}
+}
+
+func putField(r *Rng, m map[string]interface{}, k string, good interface{}) {
+	if v, ok := siteField(r, good); ok {
+		m[k] = v
+	}
+}
+
+// genSiteJSON: 0 reddit listing (api/info.json), 1 truthsocial account lookup, 2 truthsocial status,
+// 3 ina asset.  In the reddit listing `dist` and the number of children vary INDEPENDENTLY.
+func genSiteJSON(r *Rng, shape int) []byte {
+	m := map[string]interface{}{}
+	switch shape {
+	case 0:
+		var children []interface{}
+		for i := r.Intn(4); i > 0; i-- {
+			cd := map[string]interface{}{}
+			putField(r, cd, "permalink", "/r/"+randWord(r)+"/comments/"+randWord(r)+"/")
+			putField(r, cd, "url", randURL(r))
+			putField(r, cd, "title", randWord(r))
+			putField(r, cd, "num_comments", float64(r.Intn(100)))
+			ch := map[string]interface{}{}
+			putField(r, ch, "kind", "t3")
+			putField(r, ch, "data", cd)
+			children = append(children, ch)
+		}
+		data := map[string]interface{}{}
+		if r.Chance(85) {
+			data["dist"] = float64(r.Intn(4)) // not tied to len(children)
+		}
+		switch r.Intn(8) {
+		case 0: // absent
+		case 1:
+			data["children"] = nil
+		case 2:
+			data["children"] = []interface{}{}
+		default:
+			if children == nil {
+				children = []interface{}{}
+			}
+			data["children"] = children
+		}
+		putField(r, data, "after", nil)
+		putField(r, data, "modhash", "")
+		putField(r, m, "kind", "Listing")
+		if r.Chance(90) {
+			m["data"] = data
+		} else {
+			putField(r, m, "data", data)
+		}
+	case 1:
+		putField(r, m, "id", fmt.Sprint(100000+r.Intn(900000)))
+		putField(r, m, "username", randWord(r))
+		putField(r, m, "created_at", "2024-01-02T03:04:05.000Z")
+		putField(r, m, "followers_count", float64(r.Intn(1000)))
+		putField(r, m, "emojis", []interface{}{})
+		putField(r, m, "pleroma", map[string]interface{}{"accepts_chat_messages": true})
+	case 2:
+		var att []interface{}
+		for i := r.Intn(3); i > 0; i-- {
+			a := map[string]interface{}{}
+			putField(r, a, "id", fmt.Sprint(r.Intn(1000)))
+			putField(r, a, "type", "video")
+			putField(r, a, "url", randURL(r))
+			putField(r, a, "external_video_id", "v"+randWord(r))
+			putField(r, a, "meta", map[string]interface{}{"original": map[string]interface{}{"width": 1, "duration": 1.5}})
+			att = append(att, a)
+		}
+		putField(r, m, "id", fmt.Sprint(r.Intn(1000000)))
+		putField(r, m, "created_at", "2024-01-02T03:04:05.000Z")
+		putField(r, m, "content", "<p>"+randURL(r)+"</p>")
+		putField(r, m, "url", randURL(r))
+		putField(r, m, "media_attachments", att)
+		putField(r, m, "account", map[string]interface{}{"id": "1", "created_at": "2024-01-02T03:04:05.000Z", "avatar": randURL(r)})
+		putField(r, m, "card", map[string]interface{}{"image": randURL(r)})
+	default:
+		putField(r, m, "id", randWord(r))
+		putField(r, m, "resourceUrl", randURL(r))
+		putField(r, m, "resourceThumbnail", randURL(r))
+		putField(r, m, "embedUrl", "/embed/"+randWord(r))
+		putField(r, m, "uri", randURL(r))
+		putField(r, m, "dateOfBroadcast", "2024-01-02T03:04:05+01:00")
+		putField(r, m, "duration", float64(r.Intn(1000)))
+		putField(r, m, "credits", []interface{}{map[string]interface{}{"@context": map[string]interface{}{"name": "x"}, "attributes": []interface{}{}}})
+	}
+	b, _ := json.Marshal(m)
+	return b
+}
+
+// sitePostShapes: URL that routes to a site-specific arm of extractAssets / extractOutlinks, the
+// Content-Type the site answers with, the body shape (genSiteJSON number, -1 = HTML page).
+var sitePostShapes = []struct {
+	url, ct string
+	shape   int
+}{
+	{"https://www.reddit.com/api/info.json?id=t3_1abcd2", "application/json; charset=UTF-8", 0}, // reddit.IsPostAPI (outlinks) + JSON (assets)
+	{"https://old.reddit.com/api/info.json?id=t3_zz", "application/json", 0},
+	{"https://www.reddit.com/r/pics/comments/1abcd2/title/", "text/html; charset=UTF-8", -1}, // reddit.IsRedditURL: asset unescaping
+	{"https://truthsocial.com/@realuser", "text/html; charset=utf-8", -1},                    // truthsocial.IsAccountURL
+	{"https://truthsocial.com/api/v1/accounts/lookup?acct=realuser", "application/json; charset=utf-8", 1},
+	{"https://truthsocial.com/api/v1/statuses/113000000000000001", "application/json; charset=utf-8", 2}, // NeedExtraction: status + JSON
+	{"https://truthsocial.com/@realuser/posts/113000000000000001", "text/html; charset=utf-8", -1},       // IsPostURL: post assets + HTMLAssets
+	{"https://apipartner.ina.fr/assets/CAB00000001?sign=x&partnerId=2", "application/json", 3},           // ina.IsAPIURL: ExtractMedias + HTMLAssets
+	{"https://www.ina.fr/ina-eclaire-actu/video/cab00000001/titre", "text/html; charset=UTF-8", -1},
+	{"https://www.facebook.com/user/posts/1234567890", "text/html; charset=utf-8", -1},
+}
+
+// genSitePost: byte 0 = shape, byte 1 = flags (bit0 domains crawl, bit1 hop limit reached, bits 2-3
+// depth of the item 0..2), then the body; mostly the body shape that belongs to the URL.
+func genSitePost(r *Rng) []byte {
+	k := r.Intn(len(sitePostShapes))
+	flags := byte(r.Intn(256))
+	if r.Chance(70) {
+		flags &^= 2 // outlink extraction on
+	}
+	var body []byte
+	sh := sitePostShapes[k].shape
+	switch {
+	case r.Chance(12): // a body of another shape
+		body = genSiteJSON(r, r.Intn(4))
+	case sh < 0:
+		body = genHTMLDoc(r)
+		if r.Chance(40) { // reddit-style escaped asset URLs
+			body = append(body, []byte("<img src=\"https://preview.redd.it/x.jpg?width=1&amp;amp;s=%zz\"><img src=\"https://i.redd.it/%gg.png\">")...)
+		}
+	default:
+		body = genSiteJSON(r, sh)
+	}
+	return append([]byte{byte(k), flags}, body...)
+}
+
 // ---- dispatcher -------------------------------------------------------------------------------
 
-var fuzzTargets = []string{"html", "json", "xml", "sitemap", "s3", "m3u8", "pdf", "post", "norm", "linkhdr", "script", "body", "site"}
+var fuzzTargets = []string{"html", "json", "xml", "sitemap", "s3", "m3u8", "pdf", "post", "norm", "linkhdr", "script", "body", "site", "sitepost"}
 
 // weights of the targets in the generated stream (pdf is slow, it gets fewer inputs)
-var fuzzWeights = []int{16, 10, 10, 5, 6, 14, 4, 14, 8, 3, 4, 3, 3}
+var fuzzWeights = []int{16, 10, 10, 5, 6, 14, 4, 12, 8, 3, 4, 3, 4, 10}
 
 func fuzzTargetIndex(name string) int {
 	for i, t := range fuzzTargets {
@@ -585,8 +745,12 @@ func genFuzzData(target, g string, seed uint64) []byte {
 		switch target {
 		case "html":
 			return genHTMLDoc(r), htmlDict
-		case "json", "site":
+		case "json":
 			return genJSONDoc(r), jsonDict
+		case "site":
+			return genSiteJSON(r, r.Intn(4)), siteDict
+		case "sitepost":
+			return genSitePost(r), siteDict
 		case "xml":
 			return genXMLDoc(r), xmlDict
 		case "sitemap":
@@ -654,6 +818,8 @@ func genFuzzData(target, g string, seed uint64) []byte {
 			return pathoHTML(r)
 		case "json", "site":
 			return pathoJSON(r)
+		case "sitepost":
+			return append([]byte{byte(r.Intn(256)), byte(r.Intn(256))}, pathoJSON(r)...)
 		case "xml", "sitemap", "s3":
 			return pathoXML(r)
 		case "m3u8":
